@@ -116,6 +116,11 @@ func chanState(ch *tds.Channel) string {
 // RunRounds executes the rounds on one fresh connection in one controlled
 // execution and returns the per-round observations.
 func RunRounds(cfg vrt.Config, corpus map[string]Response, rounds []Round, hooks HookCfg) ([]RoundObs, Obs, *vrt.Exec) {
+	return RunRoundsCuts(cfg, corpus, rounds, hooks, nil)
+}
+
+// RunRoundsCuts is RunRounds with explicit packet boundaries for rounds whose Pack is -1.
+func RunRoundsCuts(cfg vrt.Config, corpus map[string]Response, rounds []Round, hooks HookCfg, explicit []int) ([]RoundObs, Obs, *vrt.Exec) {
 	var obs []RoundObs
 	var o Obs
 	x := vrt.Run(cfg, func() {
@@ -155,7 +160,11 @@ func RunRounds(cfg vrt.Config, corpus map[string]Response, rounds []Round, hooks
 					}
 				}
 				r := corpus[rd.Resp]
-				pipe.PeerSend(OneChunk(Packets(r.Bytes(), CutsFor(r, rd.Pack)))...)
+				cuts := CutsFor(r, rd.Pack)
+				if rd.Pack == -1 {
+					cuts = explicit
+				}
+				pipe.PeerSend(OneChunk(Packets(r.Bytes(), cuts))...)
 			}
 		})
 		for ri, rd := range rounds {
